@@ -578,6 +578,25 @@ pub fn execute(script: &Script) -> Result<Stats, Fail> {
             },
             Op::Step { .. } => unreachable!(),
         }
+        // passive observations after every operation, in whatever state the objects are:
+        // Debug formatting (logging a session must never panic), the raw Split() query
+        for side in sides.iter_mut() {
+            match &mut side.ep {
+                Ep::Hs(h) => {
+                    let _ = call("HandshakeState as Debug", || format!("{:?}", h).len())?;
+                    if k % 3 == 0 {
+                        let _ = call("HandshakeState::dangerously_get_raw_split", || h.dangerously_get_raw_split())?;
+                    }
+                },
+                Ep::T(t) => {
+                    let _ = call("TransportState as Debug", || format!("{:?}", t).len())?;
+                },
+                Ep::Sl(t) => {
+                    let _ = call("StatelessTransportState as Debug", || format!("{:?}", t).len())?;
+                },
+                Ep::Gone => {},
+            }
+        }
     }
     Ok(st)
 }
